@@ -244,7 +244,7 @@ def check_case(case, stats=None, scratch=None, legs=True):
 
 
 def shard(shard, nshards, tier, seed, scratch):
-    total = 16000 if tier == 'quick' else 200000
+    total = 26000 if tier == 'quick' else 240000
     stats = Stats()
     failures = run_hypothesis(strategy(), lambda c: check_case(c, stats, scratch), max(1, total // nshards), seed, shrink_budget=300 if tier == 'quick' else 2000)
     return {'stats': stats.export(), 'failures': failures}
